@@ -31,6 +31,7 @@ def run(ctx, sess):
     ctx.rule('C14.5', 'in-place payload rewrite: jls_raw_wr_payload outside the append operation rewrites only a track head table, after seeking to that head chunk')
     ctx.rule('C14.6', 'head table entries are written once: a store to head_offsets[i] reachable from writer roots is guarded by head_offsets[i] == 0 and stores the offset of a chunk already written')
     ctx.rule('C14.7', 'seek bracket: after an in-place write every path to a zero return restores the saved position')
+    ctx.rule('C14.9', 'the append operation is used only at the end of the file: in writer code no jls_raw_wr is reachable from a seek to a remembered chunk offset unless the saved end position was restored first')
     ctx.rule('C14.8', 'a chunk is linked (and its header cached for later rewrite) only after it was written and stamped: jls_raw_wr(&X.hdr) dominates jls_core_update_item_head(.., &X)')
 
     roots = sorted(f.name for f in P.all_functions() if f.api and f.name.startswith(WRITER_ROOT_PREFIXES))
@@ -236,6 +237,43 @@ def run(ctx, sess):
                    'guarded by zero test: %s; value: %s' % (guard, vdetail))
     ctx.floor('head table stores reachable from writer roots', n6, 2)
 
+    # ---- C14.9
+    n9 = 0
+    for name in sorted(wreach):
+        fn = P.functions.get(name)
+        if fn is None:
+            continue
+        appenders = set(g.name for g in P.all_functions() if 'jls_raw_wr' in P.reachable_from([g.name])) | {'jls_raw_wr'}
+        wrs = [c for c in fn.calls() if c.callee in appenders]
+        if not wrs:
+            continue
+        saved = set()
+        for ev in fn.stores():
+            lhs, rhs, o = ev.store_parts()
+            l0 = strip_casts(lhs)
+            if rhs is not None and l0.get('op') == 'ref' and any(nd.get('op') == 'call' and nd.get('callee') == 'jls_raw_chunk_tell' for nd in walk(rhs)):
+                saved.add(l0['name'])
+        for sk in fn.calls('jls_raw_chunk_seek'):
+            a = strip_casts(sk.args[1])
+            if a.get('op') == 'ref' and a.get('name') in saved:
+                continue          # restoring the saved position
+            n9 += 1
+
+            def on_event(e2, facts):
+                if e2.k == 'call' and e2.callee in ('jls_raw_seek_end',):
+                    return 'stop'
+                if e2.k == 'call' and e2.callee == 'jls_raw_chunk_seek':
+                    a2 = strip_casts(e2.args[1])
+                    if a2.get('op') == 'ref' and a2.get('name') in saved:
+                        return 'stop'
+                if e2.k == 'call' and e2.callee in appenders:
+                    return 'target'
+                return None
+            w = find_path(fn, sk, on_event)
+            ctx.ob('C14.9', w is None, fn.name, 'no append after seeking to %s' % show(a)[:40], sk.where(),
+                   'position restored before any append' if w is None else
+                   'jls_raw_wr runs at a remembered chunk offset: a whole chunk (header and payload) already on disk is rewritten in place', w.render() if w else None)
+    ctx.note('C14.9: %d seeks to remembered offsets in functions that also append' % n9)
     # ---- C14.8
     n8 = 0
     for fn, ev, hp, cp in chunks.link_calls(P):
